@@ -9,7 +9,7 @@ func VH_C18_updown() {
 	t := []byte(">t0\nACG\n>t1\nGCG\n>t2\nACA\n")
 	qtype, ttype := "fasta", "fasta"
 	distall := 3
-	kind := vChoice("kind", 10)
+	kind := vChoice("kind", 12)
 	list := false
 	switch kind {
 	case 0: // more than one record in --reference
@@ -47,6 +47,12 @@ func VH_C18_updown() {
 	case 8: // CSV that is not updown list output (wrong header)
 		ttype = "csv"
 		t = []byte("name,snps,ambs,n,m\nt0,,,0,0\n")
+	case 10: // target CSV whose header has an extra column
+		ttype = "csv"
+		t = []byte("query,SNPs,ambiguities,SNPcount,ambcount,extra\nt0,,,0,0,x\n")
+	case 11: // target CSV whose header lacks a column
+		ttype = "csv"
+		t = []byte("query,SNPs,ambiguities,SNPcount\nt0,,,0\n")
 	case 9: // query CSV with wrong header
 		qtype = "csv"
 		q = []byte("query,SNPs\nq0,\n")
